@@ -64,7 +64,8 @@ RepOk(pre, x, g) ==
             /\ \A i \in 1..Len(g.pslots) : g.pslots[i] = x.ent
        [] x.kind = "stillalive" -> g.ent = x.ent /\ g.locent = x.ent
        [] x.kind = "unexpected_death" -> g.locent = 0
-       [] x.kind = "seq_teardown" -> g.lst = x.lst /\ g.locent = 0
+       \* the report lists exactly the entries that are still pending; the order of the listing is not specified
+       [] x.kind = "seq_teardown" -> Len(g.lst) = Len(x.lst) /\ {g.lst[i] : i \in 1..Len(g.lst)} = {x.lst[i] : i \in 1..Len(x.lst)} /\ g.locent = 0
        [] OTHER -> FALSE
 
 RepTag(k) ==
